@@ -101,7 +101,7 @@ impl<'t> Exec<'t> {
                             let got = abs_string_any(v);
                             if got != want_s {
                                 self.report(&["C12"], "convert.value", h, &kind, format!("conversion {} -> {} ({}) gave {} want {}", TYPE_NAMES[src_tid as usize], TYPE_NAMES[tid as usize], form, got, want_s));
-                            } else if all_batteries || (self.step_idx + tid as usize) % 5 == 0 {
+                            } else if self.mask.c12 && (all_batteries || (self.step_idx + tid as usize) % 5 == 0) {
                                 // a conversion that copied dirty source words passes a get() comparison and fails here
                                 let tw = fresh_any(tid, &m);
                                 let a = any!(v, x => { let mut o = battery(x, &[], false); o.extend(growth(x)); o });
